@@ -25,6 +25,11 @@ pub enum Edit {
     /// Conventional placement: an own-line comment directly above an anchor that starts its line
     /// (no-op when the chosen anchor does not start a line). Judged strictly.
     LineComment { anchor: u16, id: u8, style: u8 },
+    /// Conventional placement: a trailing comment at the end of a line whose code ends with an
+    /// anchor (no-op otherwise). `tight` omits the space before `//`. Judged strictly.
+    TrailComment { anchor: u16, id: u8, tight: bool },
+    /// Insert an escape sequence or special character inside a string literal.
+    StringPoke { pos: u16, kind: u8 },
 }
 
 impl Edit {
@@ -46,6 +51,8 @@ pub fn strategy() -> impl Strategy<Value = Gen> {
         5 => (any::<u16>(), any::<bool>(), any::<u8>(), 0u8..4).prop_map(|(anchor, before, id, style)| Edit::AnchorComment { anchor, before, id, style }),
         1 => (any::<u16>(), 1u8..3).prop_map(|(anchor, n)| Edit::AnchorBlank { anchor, n }),
         6 => (any::<u16>(), any::<u8>(), 0u8..4).prop_map(|(anchor, id, style)| Edit::LineComment { anchor, id, style }),
+        4 => (any::<u16>(), any::<u8>(), any::<bool>()).prop_map(|(anchor, id, tight)| Edit::TrailComment { anchor, id, tight }),
+        3 => (any::<u16>(), 0u8..12).prop_map(|(pos, kind)| Edit::StringPoke { pos, kind }),
         3 => (any::<u16>(), 0u8..10).prop_map(|(pos, kind)| Edit::Ws { pos, kind }),
         2 => (any::<u16>(), prop::sample::select(vec![1u8, 5, 20, 30, 36, 40, 45, 50, 60, 90, 100])).prop_map(|(which, extra)| Edit::Rename { which, extra }),
         1 => (any::<u16>(), 1u8..4).prop_map(|(pos, n)| Edit::Blank { pos, n }),
@@ -123,9 +130,8 @@ pub fn anchors_of(src: &str) -> Vec<(usize, usize)> {
         match st {
             Statement::TypeAlias { name_span, .. } => {
                 if let Some(sp) = name_span.get() {
-                    // only a "before" anchor is meaningful; end = end of line
-                    let eol = src[sp.offset..].find('\n').map(|i| sp.offset + i).unwrap_or(src.len());
-                    out.push((sp.offset, eol));
+                    // only a "before" anchor is meaningful (the statement's end is not recorded in the AST)
+                    out.push((sp.offset, sp.offset));
                 }
             }
             Statement::Expression(s) => seq(s, &mut out),
@@ -134,6 +140,59 @@ pub fn anchors_of(src: &str) -> Vec<(usize, usize)> {
     out.retain(|(s, e)| *s <= src.len() && *e <= src.len() && src.is_char_boundary(*s) && src.is_char_boundary(*e));
     out.sort();
     out.dedup();
+    out
+}
+
+/// Byte offsets strictly inside string literals (single- and multi-line), outside holes.
+pub fn string_interior_offsets(src: &str) -> Vec<usize> {
+    let mut out = Vec::new();
+    let b = src.as_bytes();
+    let mut i = 0;
+    while i < b.len() {
+        if b[i] == b'/' && i + 1 < b.len() && b[i + 1] == b'/' {
+            while i < b.len() && b[i] != b'\n' {
+                i += 1;
+            }
+            continue;
+        }
+        if b[i] == b'"' {
+            let multi = i + 2 < b.len() && b[i + 1] == b'"' && b[i + 2] == b'"';
+            let mut j = if multi { i + 3 } else { i + 1 };
+            let mut depth = 0usize;
+            loop {
+                if j >= b.len() {
+                    return out;
+                }
+                if b[j] == b'\\' {
+                    j += 2;
+                    continue;
+                }
+                if depth == 0 {
+                    if multi && b[j] == b'"' && j + 2 < b.len() + 0 && b.get(j + 1) == Some(&b'"') && b.get(j + 2) == Some(&b'"') {
+                        j += 3;
+                        break;
+                    }
+                    if !multi && b[j] == b'"' {
+                        j += 1;
+                        break;
+                    }
+                    if b[j] == b'{' {
+                        depth = 1;
+                    } else if src.is_char_boundary(j) {
+                        out.push(j);
+                    }
+                } else if b[j] == b'{' {
+                    depth += 1;
+                } else if b[j] == b'}' {
+                    depth -= 1;
+                }
+                j += 1;
+            }
+            i = j;
+            continue;
+        }
+        i += 1;
+    }
     out
 }
 
@@ -197,6 +256,34 @@ pub fn render_opt(g: &Gen, corpus: &[String], skip_loose: bool) -> String {
                     _ => format!("// c{id}\n{indent}// d{id}"),
                 };
                 src.insert_str(ls, &format!("{indent}{body}\n"));
+                continue;
+            }
+            Edit::TrailComment { anchor, id, tight } => {
+                let anchors: Vec<(usize, usize)> = anchors_of(&src)
+                    .into_iter()
+                    .filter(|(_, end)| {
+                        let rest = &src[*end..];
+                        let eol = rest.find('\n').unwrap_or(rest.len());
+                        // not between a condition and its `=>` (recorded finding)
+                        rest[..eol].chars().all(|c| c == ' ' || c == '\t') && !rest.trim_start().starts_with("=>")
+                    })
+                    .collect();
+                if anchors.is_empty() {
+                    continue;
+                }
+                let (_, end) = anchors[idx(*anchor, anchors.len())];
+                let ins = if *tight { format!("// t{id}") } else { format!(" // t{id}") };
+                src.insert_str(end, &ins);
+                continue;
+            }
+            Edit::StringPoke { pos, kind } => {
+                let spots = string_interior_offsets(&src);
+                if spots.is_empty() {
+                    continue;
+                }
+                let at = spots[idx(*pos, spots.len())];
+                const POKES: &[&str] = &["\\t", "\\n", "\\s", "\\\\", "\\{", "\\\"", "\t", " ", "é", "\\r", "x", "\\t\\t"];
+                src.insert_str(at, POKES[(*kind as usize) % POKES.len()]);
                 continue;
             }
             Edit::AnchorBlank { anchor, n } => {
@@ -268,7 +355,7 @@ pub fn render_opt(g: &Gen, corpus: &[String], skip_loose: bool) -> String {
                 let p = idx(*pos, v.len() + 1);
                 v.insert(p, "\n".repeat(*n as usize + 1));
             }
-            Edit::AnchorComment { .. } | Edit::AnchorBlank { .. } | Edit::LineComment { .. } => {}
+            Edit::AnchorComment { .. } | Edit::AnchorBlank { .. } | Edit::LineComment { .. } | Edit::TrailComment { .. } | Edit::StringPoke { .. } => {}
             Edit::WrapBlock { pos } => {
                 // wrap one non-whitespace token in braces: `{ tok }` (a redundant block when it parses)
                 let non_ws: Vec<usize> = v.iter().enumerate().filter(|(_, t)| !t.chars().all(|c| c.is_whitespace())).map(|(i, _)| i).collect();
@@ -409,6 +496,56 @@ pub fn comment_in_empty_brackets(src: &str) -> bool {
     false
 }
 
+/// Known finding (generalises comment-in-empty-brackets): a comment whose next non-trivia
+/// character is a closing bracket has no following node to attach to inside the brackets.
+pub fn comment_before_close_bracket(src: &str) -> bool {
+    let b: Vec<char> = src.chars().collect();
+    let mut i = 0;
+    let mut in_str = false;
+    while i < b.len() {
+        let c = b[i];
+        if in_str {
+            if c == '\\' {
+                i += 2;
+                continue;
+            }
+            if c == '"' {
+                in_str = false;
+            }
+            i += 1;
+            continue;
+        }
+        if c == '"' {
+            in_str = true;
+            i += 1;
+            continue;
+        }
+        if c == '/' && i + 1 < b.len() && b[i + 1] == '/' {
+            // skip this and following comments/whitespace
+            let mut j = i;
+            loop {
+                while j < b.len() && b[j] != '\n' && b[j] != '\r' {
+                    j += 1;
+                }
+                while j < b.len() && b[j].is_whitespace() {
+                    j += 1;
+                }
+                if j + 1 < b.len() && b[j] == '/' && b[j + 1] == '/' {
+                    continue;
+                }
+                break;
+            }
+            if j < b.len() && matches!(b[j], ']' | '}' | ')') {
+                return true;
+            }
+            i = j.max(i + 2);
+            continue;
+        }
+        i += 1;
+    }
+    false
+}
+
 /// Known finding: a comment on the same line as, and directly after, an opening bracket.
 pub fn trailing_comment_after_open_bracket(src: &str) -> bool {
     let b: Vec<char> = src.chars().collect();
@@ -432,6 +569,9 @@ pub fn excluded(src: &str) -> Option<&'static str> {
     }
     if trailing_comment_after_open_bracket(src) {
         return Some("excluded:comment-after-open-bracket");
+    }
+    if comment_before_close_bracket(src) {
+        return Some("excluded:comment-before-close-bracket");
     }
     if string_hole_and_comment(src) {
         return Some("excluded:string-hole-and-comment");
@@ -768,6 +908,12 @@ pub fn run(ctx: &Ctx) -> i32 {
                     }
                     if g.edits.iter().any(|e| matches!(e, Edit::LineComment { .. })) {
                         stats.class("line-comment-edit");
+                    }
+                    if g.edits.iter().any(|e| matches!(e, Edit::TrailComment { .. })) {
+                        stats.class("trailing-comment-edit");
+                    }
+                    if g.edits.iter().any(|e| matches!(e, Edit::StringPoke { .. })) {
+                        stats.class("string-poke-edit");
                     }
                     if g.edits.iter().any(|e| e.is_loose_trivia()) {
                         stats.class("loose-trivia-edit");
